@@ -9,6 +9,9 @@ CONSTANTS
   SetDtypes = {"i2", "i8"}
   SliceArgs <- MCSliceArgs
   MergeArgs = {2}
+  TakeArgs <- MCTakeArgs
+  EdgeVals = {0}
+  MinFreqs = {2}
   MaxDepth = 4
   MaxVal = 100000
 CHECK_DEADLOCK FALSE
